@@ -84,7 +84,7 @@ static int ref_parse(int *type, uint64_t *num, const char *name) {
 }
 
 /* an arbitrary NUL-terminated string of at most FN_MAX characters in an exactly fitting heap object */
-#define FN_SYM_MAX 14   /* symbolic names: decimal arithmetic over more digits is out of the SAT solver's reach */
+#define FN_SYM_MAX 12   /* symbolic names: decimal arithmetic over more digits is out of the SAT solver's reach */
 #define MK_NAME(name) \
   IN_SIZE(in_len); ASSUME(in_len <= FN_SYM_MAX); \
   char *name = malloc(in_len + 1); ASSUME(name != NULL); \
@@ -135,7 +135,7 @@ void h_parse_examples(void) {
  * parse(basename(build(type, number))) = (type, number), for an arbitrary
  * number and a database name of 0..2 arbitrary characters */
 #define RT_BUF 64
-#define RT_NUM_MAX ((uint64_t)1 << 24)   /* symbolic file numbers (<= 8 digits); the 64-bit boundary values are replayed concretely in fn.rt_examples */
+#define RT_NUM_MAX ((uint64_t)1 << 10)   /* symbolic file numbers (<= 4 digits); the 64-bit boundary values are replayed concretely in fn.rt_examples */
 static const char *rt_setup(char *db) {
   IN_SIZE(in_dblen); ASSUME(in_dblen <= 2);
   ASSUME(in_dblen < 1 || db[0] != 0); ASSUME(in_dblen < 2 || db[1] != 0);
